@@ -55,3 +55,42 @@ Proof.
   - rewrite Hall. change (whole_function ie_t) with ie_f. rewrite ie_run_all. reflexivity.
   - destruct (Hres ie_res) as [_ [_ Hd]]. apply Hd.
 Qed.
+
+(* ====================================================================== two further pairs *)
+Definition m2_prog (ls : list string) : prog :=
+  match parse_program (String.concat ie_nl ls) with Ok p => p | Err _ => [] end.
+
+(* (a) the moved bodies call further subroutines: the swap permutes tealer's subroutine table (s3, s4 are first
+   referenced in the other order); the check reads the table by name and still accepts *)
+Definition m2_M : prog := Eval vm_compute in m2_prog ["#pragma version 6"; "callsub s1"; "callsub s2"; "int 1"; "return"].
+Definition m2_S1 : prog := Eval vm_compute in m2_prog ["s1:"; "callsub s3"; "retsub"].
+Definition m2_S2 : prog := Eval vm_compute in m2_prog ["s2:"; "callsub s4"; "retsub"].
+Definition m2_R : prog := Eval vm_compute in m2_prog ["s3:"; "retsub"; "s4:"; "txn RekeyTo"; "global ZeroAddress"; "=="; "assert"; "retsub"].
+Definition m2_t : teal := Eval vm_compute in match parse_teal (mv_p m2_M m2_S1 m2_S2 m2_R) with Ok t => t | Err _ => ie_dummy_teal end.
+Definition m2_t' : teal := Eval vm_compute in match parse_teal (mv_p' m2_M m2_S1 m2_S2 m2_R) with Ok t => t | Err _ => ie_dummy_teal end.
+Example m2_parse : parse_teal (mv_p m2_M m2_S1 m2_S2 m2_R) = Ok m2_t /\ parse_teal (mv_p' m2_M m2_S1 m2_S2 m2_R) = Ok m2_t'.
+Proof. split; vm_compute; reflexivity. Qed.
+Example m2_table_permuted :
+  map s_name (t_subs m2_t) = ["s1"; "s2"; "s3"; "s4"] /\ map s_name (t_subs m2_t') = ["s1"; "s2"; "s4"; "s3"].
+Proof. split; vm_compute; reflexivity. Qed.
+Example m2_accepted :
+  movable m2_M m2_S1 m2_S2 = true /\
+  iso_check_graph (mv_r m2_M m2_S1 m2_S2 m2_R) (mv_g m2_M m2_S1 m2_S2) (whole_function m2_t) (whole_function m2_t') = true.
+Proof. split; vm_compute; reflexivity. Qed.
+
+(* (b) limit of the in-order requirement: both moved bodies jump to one common block; tealer lists its predecessors in
+   source order, the swap reverses them, and the check rejects the pair (the theorems then say nothing) *)
+Definition m3_M : prog := Eval vm_compute in m2_prog ["#pragma version 6"; "txn Fee"; "bz b2"; "b b1"].
+Definition m3_S1 : prog := Eval vm_compute in m2_prog ["b1:"; "int 1"; "pop"; "b common"].
+Definition m3_S2 : prog := Eval vm_compute in m2_prog ["b2:"; "int 2"; "pop"; "b common"].
+Definition m3_R : prog := Eval vm_compute in m2_prog ["common:"; "int 1"; "return"].
+Definition m3_t : teal := Eval vm_compute in match parse_teal (mv_p m3_M m3_S1 m3_S2 m3_R) with Ok t => t | Err _ => ie_dummy_teal end.
+Definition m3_t' : teal := Eval vm_compute in match parse_teal (mv_p' m3_M m3_S1 m3_S2 m3_R) with Ok t => t | Err _ => ie_dummy_teal end.
+Example m3_rejected :
+  movable m3_M m3_S1 m3_S2 = true /\
+  parse_teal (mv_p m3_M m3_S1 m3_S2 m3_R) = Ok m3_t /\ parse_teal (mv_p' m3_M m3_S1 m3_S2 m3_R) = Ok m3_t' /\
+  option_map b_prev (fblock (whole_function m3_t) 4) = Some [2; 3] /\
+  option_map b_prev (fblock (whole_function m3_t') 4) = Some [2; 3] /\
+  map (mv_r m3_M m3_S1 m3_S2 m3_R) [2; 3] = [3; 2] /\
+  iso_check_graph (mv_r m3_M m3_S1 m3_S2 m3_R) (mv_g m3_M m3_S1 m3_S2) (whole_function m3_t) (whole_function m3_t') = false.
+Proof. repeat split; vm_compute; reflexivity. Qed.
